@@ -124,12 +124,14 @@ func vDamagedData(otherLoaders bool) {
 		vrt.Reach("damage/end")
 		return
 	}
-	for i := range keys {
-		got, gerr := r.Get(keys[i])
-		if gerr == nil {
-			vrt.Assert(len(vals[i]) == 0 || vrt.EqBytes(got, vals[i]), "damage/get-never-returns-different-value")
-		} else {
-			vrt.Reach("damage/detected-at-get")
+	for round := 0; round < 2; round++ { // a second lookup of a key must not fare better than the first
+		for i := range keys {
+			got, gerr := r.Get(keys[i])
+			if gerr == nil {
+				vrt.Assert(len(vals[i]) == 0 || vrt.EqBytes(got, vals[i]), "damage/get-never-returns-different-value")
+			} else {
+				vrt.Reach("damage/detected-at-get")
+			}
 		}
 	}
 	sc, serr := r.Scan()
